@@ -33,6 +33,7 @@ chk("C04", "exploration", "property-based testing (Hypothesis): generated ball h
     "while that device's own eject is unconfirmed; sub-check 'game' runs the same machines with the game mode, a "
     "generated ball save and a generated multiball and only player/physics operations (start button, drains, lock "
     "An optional VUK (1-2 switches) sits between launcher and playfield (trough -> launcher -> VUK -> playfield). "
+    "Further topology options: a jam switch that must not count as a slot, a trough one slot short of the ball count (the last ball waits in the outhole), a lock that is a VUK to an upper playfield with a transfer switch back (two playfields). "
     "shots, plunges, multiball start/add-a-ball, early save). Search over a documented physical envelope, not proof.",
     "Balls are never created/destroyed, clean switches, >= 400 ms between two balls on one entrance switch, late "
     "arrivals below ball_missing_timeout, entrance-counted devices only eject successfully, no foreign playfield hit "
@@ -46,6 +47,7 @@ chk("C05", "exploration", "property-based testing (Hypothesis): generated reques
     "or an eject_failed event, the machine must come to rest within 60 rounds of 75 s virtual quiet and no task may "
     "crash; under a game (sub-check 'game': ball starts, ball saves, multiball adds) a ball counted as in play must be "
     "physically in play unless no ball is left in the trough/outhole. 'Eventually' is decided as this bounded liveness "
+    "A coil launcher may have a launch button (player_controlled_eject_event); a device may only report itself broken after max_eject_attempts coil pulses. "
     "under the virtual clock; true liveness is out of reach.",
     "Same envelope as C04; a mechanical plunger is eventually plunged by the player when MPF waits for it; the history "
     "ends when a device reports itself broken; at most capacity-many request_ball calls per device.",
@@ -56,6 +58,7 @@ chk("C03", "exploration", "property-based testing (Hypothesis): generated switch
     "real SwitchController; a reference model decides for every callback and switch event whether it was due (exactly "
     "once per real change, at change+hold iff the state was held, mid-interval registrations at the original deadline, "
     "Configured events with a hold time (event|ms, with and without unit) are modelled as implicit timed handlers. "
+    "Switches are also muted and unmuted. "
     "never after removal) and checks states and is_active/is_inactive answers. Search, not proof.",
     "ignore_window_ms = 0; a muted switch follows the hardware, drops pending hold-time entries and calls nobody; an operation exactly at a deadline may land on either side.",
     "DESIGN.md §4 C03")
@@ -104,6 +107,7 @@ chk("C08", "exploration", "property-based testing (Hypothesis): generated coil l
     "within max_pulse_ms / max_pulse_power / max_hold_power and holding only where allowed; a request with a negative or "
     "over-limit parameter must raise and reach the driver with nothing; a software-timed pulse and a hold limited by "
     "Sub-check 'integration' boots four flippers, three autofire coils and a kickback with generated coil limits and device-level coil overwrites and checks every pulse/hold setting that reaches the platform as a hardware rule or driver call (enable events, software flips, button presses, ball search). "
+    "At the end of an integration history, 3 s after every button and software flip was released and ball search had stopped, no coil may be enabled. "
     "max_hold_duration must be followed by disable at their deadline whatever happens in between. Search, not proof.",
     "Virtual platform interface (hardware pulse limit 255 ms); max_pulse_power 0 and NaN not generated; serial platforms' encoders not covered.",
     "DESIGN.md §4 C08")
@@ -114,6 +118,7 @@ chk("C02", "exploration", "property-based testing (Hypothesis): generated queue/
     "real EventManager; the log must show handlers in priority order, no handler started while an earlier wait is "
     "outstanding, exactly one callback after the last clear by a stated horizon, no open queue task, relay folds and "
     "Sub-check 'ballend' posts the game's ball_ending / mode_game_stopping queue events while a game mode is between starting and started, with generated waits on both (also cleared at the same instant), and requires them to complete; async handlers whose awaited future is cancelled are part of the programs. "
+    "Sub-check 'ballend2' plays several balls with two game modes and waits on their stopping events (ball_ending must not complete before every running mode has stopped, on every ball); sub-check 'relayplayer' drives queue_relay_player entries of the machine config and of a mode together against a model of which relayed queue events are held and when they are released. "
     "boolean short-circuit results. Search, not proof.",
     "Liveness is bounded (2 s of virtual time after the program's own last clear); async handlers only on queue-only events.",
     "DESIGN.md §4 C02, appendix A.1")
@@ -125,6 +130,7 @@ chk("C07", "exploration", "property-based testing (Hypothesis): generated start/
     "active_modes equals the active modes in priority order after every step, no mode-code callback after 'stopped', and "
     "whenever all modes are stopped the event/switch handler registries, delays, timers, light stacks, coils and config "
     "Sub-check 'game' starts and stops a game mode (shots with persisted enable state, a persisting counter, conditional and priority-suffixed events) inside real games and compares the registries with their state at the start of the ball / before the first game whenever the mode is stopped; the non-game modes also carry conditional and priority-suffixed entries. "
+    "A scenario stops a mode while one of its devices has a timer of its own pending (timed pause of a timer, hit window, enable delay). "
     "player instances equal the snapshot taken before any mode ran. Search, not proof.",
     "Non-game modes only; liveness bounded (waits <= 60 ms, 3 s quiet); registries compared by owner/function/priority/kwargs keys.",
     "DESIGN.md §4 C07")
@@ -136,6 +142,7 @@ chk("C06", "exploration", "property-based testing (Hypothesis): generated game h
     "balls_per_game, one ball plus awarded extra balls per turn, end only after the last turn or a request), balls in "
     "play stays within [0, balls known], a ball ends iff zero balls or a request (bounded), and after game_ended no game "
     "end_ball requests are also issued between balls (ball_will_end .. player_turn_starting), where they must not end the following ball. "
+    "balls_per_game is a template whose value changes between games; tilt warnings, tilts and slam tilts also go through the real tilt mode (2 warnings, 1 s settle time), including a slam tilt on an already tilted ball. "
     "is active and a new one starts. Search, not proof.",
     "Ball hardware faked as in MpfFakeGameTestCase; waits <= 80 ms; tilt requests only while a ball is in progress.",
     "DESIGN.md §4 C06")
@@ -157,6 +164,7 @@ chk("C10", "exploration", "property-based testing (Hypothesis): generated enable
     "switch->coil rules must equal exactly the rules the enabled devices' wiring implies (the platform raises on a "
     "double install), the enabled flag must follow the last explicit request, and whenever no ball is in play (no game, "
     "Two flippers share one button and coil and are handed over by one event (never both enabled); requests are also generated while the autofire timeout protection has paused a device. "
+    "In the lifecycle sub-check every pulse/enable reaching a flipper or autofire coil driver while no ball is in play is a violation (a scenario holds an EOS flipper up through the end of the ball, a tilt, service entry or the end of the game). "
     "ball ended, tilt, service) no flipper/autofire rule is installed and no flipper coil is energised. Search, not proof.",
     "Rule table of the virtual platform; delayed-pulse autofire rules are not available on it.",
     "DESIGN.md §4 C10")
